@@ -436,6 +436,13 @@ func (x *Exec) applyAssigns(st *State, env *SpecEnv, c *FuncContract, args []Val
 	for _, a := range c.Assigns {
 		switch a.Kind {
 		case "nothing":
+		case "target":
+			// the object an interface{} / pointer argument points to
+			v := env.eval(a.E)
+			if v.K == KIface && v.Dyn != nil {
+				v = *v.Dyn
+			}
+			x.havocReachable(st, v)
 		case "ghost":
 			old, ok := st.ghost[a.Heap]
 			if !ok {
